@@ -20,6 +20,8 @@ CONSTANTS RtmpPubs, RtspPubs, CustPubs, PsPubs,     \* input sessions (ids)
           PullAuto,                                 \* auto_stop_pull_after_no_out_ms: -1 never, 0 immediately, > 0 window
           PullEnabled,                              \* relay pull actions are part of the model
           HookOn,                                   \* a stream hook is installed (it counts as a consumer: Group.hasSubSession)
+          ShutdownEnabled,                          \* server shutdown is part of the model
+          ProbeMsgs,                                \* messages per Probe (2 when an AAC sequence header precedes the frame)
           MaxTick, MaxAttempts
 
 NetPubs == RtmpPubs \cup RtspPubs
@@ -36,17 +38,18 @@ VARIABLES grp,      \* the group exists
           pull,     \* relay pull module
           clock,    \* abstract time: number of auto-stop windows that have elapsed
           nticks,
+          down,     \* the server has been shut down (ServerManager.Dispose): nothing happens any more
           act
 
-vars == <<grp, inp, owner, ss, closed, nh, pull, clock, nticks, act>>
-View == <<grp, inp, owner, ss, closed, nh, pull, clock, nticks>>
+vars == <<grp, inp, owner, ss, closed, nh, pull, clock, nticks, down, act>>
+View == <<grp, inp, owner, ss, closed, nh, pull, clock, nticks, down>>
 
 PullInit == [api |-> FALSE, flying |-> FALSE, att |-> FALSE, n |-> 0, lastOut |-> 0, attempts |-> 0, gen |-> 0]
 
 Init == /\ grp = FALSE /\ inp = "" /\ owner = ""
         /\ ss = [x \in Sessions |-> "idle"] /\ closed = [x \in Sessions |-> FALSE]
         /\ nh = [x \in Sessions |-> "none"]
-        /\ pull = PullInit /\ clock = 0 /\ nticks = 0
+        /\ pull = PullInit /\ clock = 0 /\ nticks = 0 /\ down = FALSE
         /\ act = [name |-> "init"]
 
 HasSub == \E x \in Subs : ss[x] = "in"
@@ -168,20 +171,22 @@ Kick(x) ==
        ELSE IF ~Kickable(x)
          THEN /\ act' = [name |-> "Kick", x |-> x, obs |-> Obs("nosession", <<>>, <<>>)]
               /\ UNCHANGED <<ss, closed, inp, owner>>
-         ELSE IF x \in PsPubs
+         ELSE IF x \in PsPubs \cup RtspPubs     \* served by their own goroutine: the departure follows at once
            THEN /\ ss' = [ss EXCEPT ![x] = "gone"]
                 /\ IF inp = x THEN inp' = "" /\ owner' = "" ELSE UNCHANGED <<inp, owner>>
-                /\ act' = [name |-> "Kick", x |-> x, obs |-> Obs("ok", <<>>, IF inp = x THEN DelInEv ELSE <<>>)]
+                /\ act' = [name |-> "Kick", x |-> x,
+                           obs |-> Obs("ok", IF x \in RtspPubs THEN <<N("pub_stop", x)>> ELSE <<>>, IF inp = x THEN DelInEv ELSE <<>>)]
                 /\ UNCHANGED closed
            ELSE /\ closed' = [closed EXCEPT ![x] = TRUE]
                 /\ act' = [name |-> "Kick", x |-> x, obs |-> Obs("ok", <<>>, <<>>)]
                 /\ UNCHANGED <<ss, inp, owner>>
-  /\ UNCHANGED <<grp, nh, pull, clock, nticks>>
+  /\ nh' = IF grp /\ Kickable(x) /\ x \in RtspPubs THEN [nh EXCEPT ![x] = "stopped"] ELSE nh
+  /\ UNCHANGED <<grp, pull, clock, nticks>>
 
 \* one media message offered by x: forwarded (the stream hook sees it) iff x is the accepted input
 Probe(x) ==
   /\ x \in Pubs /\ (ss[x] = "in" \/ (x \in CustPubs /\ ss[x] = "gone"))
-  /\ LET hk  == IF HookOn /\ inp = x /\ owner # "" THEN <<N("hook_msg", owner)>> ELSE <<>>
+  /\ LET hk  == IF HookOn /\ inp = x /\ owner # "" THEN [i \in 1..ProbeMsgs |-> N("hook_msg", owner)] ELSE <<>>
          fwd == inp = x /\ \E y \in Subs : ss[y] = "in" /\ ~closed[y]     \* an attached, un-kicked subscriber received it
      IN act' = [name |-> "Probe", x |-> x,
                 obs |-> [ret |-> IF hk # <<>> \/ fwd THEN "ok" ELSE "rejected",   \* "ok" = it had an observable effect
@@ -296,13 +301,34 @@ Advance ==
   /\ act' = [name |-> "Advance", obs |-> Obs("ok", <<>>, <<>>)]
   /\ UNCHANGED <<grp, inp, owner, ss, closed, nh, pull, nticks>>
 
-Next == \/ \E x \in NetPubs : NewPub(x) \/ DelPub(x)
+\* server shutdown (ServerManager.Dispose): every group is disposed - sessions closed, the input's
+\* pipeline finalised (delIn) - and nothing is notified
+Shutdown ==
+  /\ ShutdownEnabled /\ ~down
+  /\ down' = TRUE
+  /\ inp' = "" /\ owner' = ""
+  /\ closed' = [x \in Sessions |-> closed[x] \/ (ss[x] = "in" /\ x \notin CustPubs)]
+  /\ pull' = [pull EXCEPT !.att = FALSE, !.flying = FALSE]
+  /\ act' = [name |-> "Shutdown", obs |-> Obs("ok", <<>>, IF grp THEN DelInEv ELSE <<>>)]
+  /\ UNCHANGED <<grp, ss, nh, clock, nticks>>
+
+Step == \/ \E x \in NetPubs : NewPub(x) \/ DelPub(x)
         \/ \E x \in CustPubs : AddCust(x) \/ DelCust(x)
         \/ \E x \in PsPubs : StartPs(x)
         \/ \E x \in Subs : NewSub(x) \/ DelSub(x)
         \/ \E x \in Sessions : Kick(x)
         \/ \E x \in Pubs : Probe(x)
         \/ Tick \/ StartPull \/ StopPull \/ KickPull \/ PullOk \/ PullFail \/ PullEnd \/ Advance
+\* (one conjunction, so that TLC's simulator chooses uniformly among successor states instead of
+\*  picking the Shutdown disjunct half of the time)
+\* after the shutdown nothing happens; Halt only exists so that a simulated behaviour still has a
+\* step after Shutdown (the emission prints the action that led to the current state)
+Halt == /\ down /\ act.name # "Halt" /\ act' = [name |-> "Halt"]
+        /\ UNCHANGED <<grp, inp, owner, ss, closed, nh, pull, clock, nticks, down>>
+Next == \/ /\ ~down
+           /\ \/ (Step /\ down' = down)
+              \/ Shutdown
+        \/ Halt
 Spec == Init /\ [][Next]_vars
 
 ---------------------------------------------------------------------------
@@ -310,7 +336,7 @@ Spec == Init /\ [][Next]_vars
 \* C03: at most one accepted input, and it is a session that is attached (or the pull)
 AtMostOneInput ==
   /\ Cardinality({x \in Pubs : ss[x] = "in" /\ inp = x}) <= 1
-  /\ \A x \in Pubs : (ss[x] = "in") => (inp = x)            \* an attached input IS the accepted one
+  /\ ~down => \A x \in Pubs : (ss[x] = "in") => (inp = x)   \* an attached input IS the accepted one
   /\ (inp \in Pubs) => ss[inp] = "in"
   /\ (inp = "pull") => pull.att
 \* the pipeline belongs to the accepted input
@@ -327,10 +353,10 @@ PullSane == /\ (pull.att => pull.flying) /\ (pull.att => inp = "pull")
 EmptyRemovedAct == [][(act'.name = "Tick" /\ grp /\ Inactive) => ~grp']_vars
 
 St == [grp |-> grp, inp |-> inp, owner |-> owner, ss |-> ss, closed |-> closed, pull |-> pull, clock |-> clock,
-       nticks |-> nticks]
+       nticks |-> nticks, down |-> down]
 Emit == PrintT("@E@" \o ToJson([f |-> St, a |-> act',
                                  t |-> [grp |-> grp', inp |-> inp', owner |-> owner', ss |-> ss', closed |-> closed',
-                                        pull |-> pull', clock |-> clock', nticks |-> nticks'],
+                                        pull |-> pull', clock |-> clock', nticks |-> nticks', down |-> down'],
                                  l |-> TLCGet("level")]))
 EmitA == PrintT("@A@" \o ToJson([a |-> act, l |-> TLCGet("level")]))
 =============================================================================
